@@ -159,6 +159,17 @@ fn main() {
                         ev.emit(json!({"k": kind, "ts": now_ns(), "key": k, "id": id}));
                     }
                 }
+                "close_output" => {
+                    // detach from the capture pipes: the reader tasks see EOF while the process lives on
+                    unsafe {
+                        let devnull = libc::open(b"/dev/null\0".as_ptr() as *const libc::c_char, libc::O_WRONLY);
+                        if devnull >= 0 {
+                            libc::dup2(devnull, 1);
+                            libc::dup2(devnull, 2);
+                            libc::close(devnull);
+                        }
+                    }
+                }
                 "exit" => {
                     code = step["code"].as_i64().unwrap_or(0) as i32;
                     break;
